@@ -43,11 +43,16 @@ type checkSpec struct {
 	// TotalFromWorker: the scenario enumerates a finite product; the thorough
 	// tier runs every index of it (the worker reports the size).
 	TotalFromWorker bool
+	// AlsoRace: after the ordinary batch, run a second batch with a worker
+	// built with -race (phase R).
+	AlsoRace bool
+	RaceRuns map[string]int
 }
 
 // Budgets live here (driver side) so that tiers can be tuned without touching
 // the scenarios.
 var specs = map[string]*checkSpec{
+	"C09": {Property: "C09", Level: "exploration", AlsoRace: true, Runs: map[string]int{"quick": 8000, "thorough": 300000}, RaceRuns: map[string]int{"quick": 3000, "thorough": 100000}, Wall: map[string]int{"quick": 70, "thorough": 1800}},
 	"C14": {Property: "C14", Level: "exploration", Runs: map[string]int{"quick": 12000, "thorough": 400000}, Wall: map[string]int{"quick": 50, "thorough": 1500}},
 	"C12": {Property: "C12", Level: "fault_enumeration", Runs: map[string]int{"quick": 0, "thorough": 0}, Wall: map[string]int{"quick": 50, "thorough": 1500}, TotalFromWorker: true},
 	"C05": {Property: "C05", Level: "exploration", Overlay: true, Runs: map[string]int{"quick": 12000, "thorough": 300000}, Wall: map[string]int{"quick": 45, "thorough": 1500}, MustCount: "probe_site_"},
@@ -360,7 +365,6 @@ func cmdCheck(args []string) {
 	if *wallFlag > 0 {
 		wall = *wallFlag
 	}
-	deadline := time.Now().Add(time.Duration(wall) * time.Second)
 	tag := fmt.Sprintf("%s-%d", id, os.Getpid())
 	outDir := filepath.Join(verifDir, ".build", "out-"+tag)
 	os.MkdirAll(outDir, 0o755)
@@ -375,70 +379,130 @@ func cmdCheck(args []string) {
 		output  string
 		aggOK   bool
 	}
-	results := make([]wres, nproc)
-	var wg sync.WaitGroup
-	for w := 0; w < nproc; w++ {
-		wg.Add(1)
-		go func(w int) {
-			defer wg.Done()
-			out := filepath.Join(outDir, fmt.Sprintf("agg-%d.json", w))
-			logPath := filepath.Join(outDir, fmt.Sprintf("log-%d.txt", w))
-			logf, _ := os.Create(logPath)
-			cmd := exec.Command(bin, "-test.run", "TestWorker", "-test.timeout", "12h", "-test.cpu", "1")
-			cmd.Dir = verifDir
-			env := append(os.Environ(),
-				"VERIF_CHECK="+id, "VERIF_TIER="+*tier, "VERIF_SEED="+strconv.FormatUint(seed, 10),
-				"VERIF_FROM="+strconv.Itoa(w), "VERIF_TO="+strconv.Itoa(runs), "VERIF_STRIDE="+strconv.Itoa(nproc),
-				"VERIF_DEADLINE="+strconv.FormatInt(deadline.Unix(), 10),
-				"VERIF_OUT="+out, "VERIF_REPLAY_DIR="+replayDir, "VERIF_WORKER="+strconv.Itoa(w),
-				"GOMAXPROCS=2",
-			)
-			if spec.Race {
-				env = append(env, "GORACE=halt_on_error=1 exitcode=66")
-			}
-			var sigs []string
-			for _, k := range loadKnown() {
-				if k.Status == "known" && k.Property == id {
-					sigs = append(sigs, k.Signature)
-				}
-			}
-			env = append(env, "VERIF_KNOWN="+strings.Join(sigs, "\x1f"))
-			cmd.Env = env
-			cmd.Stdout = logf
-			cmd.Stderr = logf
-			err := cmd.Run()
-			logf.Close()
-			r := wres{exitErr: err}
-			if b, e := os.ReadFile(out); e == nil {
-				a := &agg{}
-				if json.Unmarshal(b, a) == nil {
-					r.agg = a
-					r.aggOK = true
-				}
-			}
-			// last begin line and tail of the log
-			if f, e := os.Open(logPath); e == nil {
-				sc := bufio.NewScanner(f)
-				sc.Buffer(make([]byte, 1<<20), 1<<20)
-				var tail []string
-				for sc.Scan() {
-					line := sc.Text()
-					if strings.HasPrefix(line, "begin ") {
-						r.lastBeg = line
-					} else {
-						tail = append(tail, line)
-						if len(tail) > 60 {
-							tail = tail[1:]
-						}
-					}
-				}
-				f.Close()
-				r.output = strings.Join(tail, "\n")
-			}
-			results[w] = r
-		}(w)
+	type phase struct {
+		race  bool
+		bin   string
+		runs  int
+		wall  int
+		gmp   int
+		chunk int
 	}
-	wg.Wait()
+	phases := []phase{{race: spec.Race, bin: bin, runs: runs, wall: wall, gmp: 2}}
+	if spec.AlsoRace {
+		// phase R: the same scenario in a binary built with the race detector
+		rbin := buildWorker(spec, true)
+		rruns := spec.RaceRuns[*tier]
+		if *runsFlag > 0 {
+			rruns = *runsFlag
+		}
+		phases[0].wall = wall / 2
+		phases = append(phases, phase{race: true, bin: rbin, runs: rruns, wall: wall - wall/2, gmp: 4, chunk: 12})
+	}
+	var results []wres
+	for pi, ph := range phases {
+		bin := ph.bin
+		runs := ph.runs
+		deadline := time.Now().Add(time.Duration(ph.wall) * time.Second)
+		var phaseResults []wres
+		var resMu sync.Mutex
+		var wg sync.WaitGroup
+		// In chunked mode (race phase) every worker process handles only a
+		// small range of run indices and is then replaced by a fresh process,
+		// so that first-use-in-process paths run again and again.
+		type job struct{ from, to, stride, slot, seq int }
+		jobs := make(chan job, 1024)
+		go func() {
+			if ph.chunk <= 0 {
+				for w := 0; w < nproc; w++ {
+					jobs <- job{w, runs, nproc, w, 0}
+				}
+			} else {
+				seq := 0
+				for from := 0; from < runs; from += ph.chunk {
+					to := from + ph.chunk
+					if to > runs {
+						to = runs
+					}
+					jobs <- job{from, to, 1, seq % nproc, seq}
+					seq++
+				}
+			}
+			close(jobs)
+		}()
+		for slot := 0; slot < nproc; slot++ {
+			wg.Add(1)
+			go func(slot int) {
+				defer wg.Done()
+				for jb := range jobs {
+					if time.Now().After(deadline) {
+						continue
+					}
+					func(w int) {
+						out := filepath.Join(outDir, fmt.Sprintf("agg-%d-%d.json", pi, w))
+						logPath := filepath.Join(outDir, fmt.Sprintf("log-%d-%d.txt", pi, w))
+						logf, _ := os.Create(logPath)
+						cmd := exec.Command(bin, "-test.run", "TestWorker", "-test.timeout", "12h", "-test.cpu", "1")
+						cmd.Dir = verifDir
+						env := append(os.Environ(),
+							"VERIF_CHECK="+id, "VERIF_TIER="+*tier, "VERIF_SEED="+strconv.FormatUint(seed, 10),
+							"VERIF_FROM="+strconv.Itoa(jb.from), "VERIF_TO="+strconv.Itoa(jb.to), "VERIF_STRIDE="+strconv.Itoa(jb.stride),
+							"VERIF_DEADLINE="+strconv.FormatInt(deadline.Unix(), 10),
+							"VERIF_OUT="+out, "VERIF_REPLAY_DIR="+replayDir, "VERIF_WORKER="+strconv.Itoa(w),
+							"GOMAXPROCS="+strconv.Itoa(ph.gmp),
+						)
+						if ph.race {
+							// reports are appended to <log_path>.<pid>; the worker reads them after every run
+							env = append(env, "GORACE=log_path="+filepath.Join(outDir, fmt.Sprintf("race-%d-%d", pi, w))+" history_size=2")
+						}
+						var sigs []string
+						for _, k := range loadKnown() {
+							if k.Status == "known" && k.Property == id {
+								sigs = append(sigs, k.Signature)
+							}
+						}
+						env = append(env, "VERIF_KNOWN="+strings.Join(sigs, "\x1f"))
+						cmd.Env = env
+						cmd.Stdout = logf
+						cmd.Stderr = logf
+						err := cmd.Run()
+						logf.Close()
+						r := wres{exitErr: err}
+						if b, e := os.ReadFile(out); e == nil {
+							a := &agg{}
+							if json.Unmarshal(b, a) == nil {
+								r.agg = a
+								r.aggOK = true
+							}
+						}
+						// last begin line and tail of the log
+						if f, e := os.Open(logPath); e == nil {
+							sc := bufio.NewScanner(f)
+							sc.Buffer(make([]byte, 1<<20), 1<<20)
+							var tail []string
+							for sc.Scan() {
+								line := sc.Text()
+								if strings.HasPrefix(line, "begin ") {
+									r.lastBeg = line
+								} else {
+									tail = append(tail, line)
+									if len(tail) > 60 {
+										tail = tail[1:]
+									}
+								}
+							}
+							f.Close()
+							r.output = strings.Join(tail, "\n")
+						}
+						resMu.Lock()
+						phaseResults = append(phaseResults, r)
+						resMu.Unlock()
+					}(jb.seq*1000 + jb.slot)
+				}
+			}(slot)
+		}
+		wg.Wait()
+		results = append(results, phaseResults...)
+	}
 
 	total := &agg{Property: id, Counters: map[string]int{}, Strategies: map[string]int{}, Inconclusive: map[string]int{}}
 	digests := map[uint64]struct{}{}
